@@ -269,6 +269,9 @@ contract('ScenarioManagerSd.get_cloned_model', trusted=True, props=['C06', 'C07'
          params=dict(self=SMS, model=TRef('SdModel')), returns=TRef('SdModel'),
          # ... whose points table is a dictionary of its own (`new_mod.points = copy.deepcopy(model.points)`)
          ensures=lambda C: Implies(Not(C.result.is_null), And(C.fresh(C.result), C.fresh_oid(C.result.points.oid))))
+contract('copy.deepcopy', trusted=True, props=['C06', 'C07'], params=dict(x=SETTINGS), returns=SETTINGS, allocates=True,
+         note='copy.deepcopy of a scenario dictionary (plain data): an equal value that shares nothing with the original',
+         ensures=lambda C: C.result.z == C.x.z)
 contract('ScenarioManagerSd.instantiate_model', trusted=True, props=['C06', 'C07'], params=dict(self=SMS),
          note='(re)compiles file based models; for registered models applies constants/points of every scenario to its own clone')
 
